@@ -17,7 +17,7 @@ MODELS = ["str::chars", "PeekMore::peekmore / PeekMoreIterator::{next, peek_amou
 ASSUMPTIONS = ["whitespace = Unicode White_Space (char::is_whitespace)", "peekmore/SmallVec/String are modelled semantically, validated on sampled concrete instances against the real build each run",
                "replay binary built from /repo (dev profile: overflow checks on, as in the MIR dump)"]
 BOUNDS = {"quick": {"all strings of length <=": 5, "boundary fill k": "28..35", "nesting depth <=": 20},
-          "thorough": {"all strings of length <=": 7, "boundary fill k": "24..40", "nesting depth <=": 40}}
+          "thorough": {"all strings of length <=": 6, "boundary fill k": "24..40", "nesting depth <=": 40}}
 OUTSIDE = ["strings longer than the stated lengths other than the boundary/nesting families", "descriptions produced by the crate are covered by C13's bounded registries"]
 VALIDATE_K = {"quick": 60, "thorough": 300}
 
